@@ -57,6 +57,8 @@ type TxGen struct {
 	FailLogs map[string]int
 	// rt drives the rounds of the scenario's runtime (runtime support; nil without a runtime).
 	rt *rtDriver
+	// km generates the key manager traffic (key manager support; nil without a key manager).
+	km *kmDriver
 }
 
 type maker struct {
@@ -102,6 +104,13 @@ func NewTxGen(h *History) *TxGen {
 			maker{"rt-submitmsg", w(4, "runtime", 2), (*TxGen).mkSubmitMsg},
 			maker{"rt-evidence", w(3, "runtime", 2), (*TxGen).mkEvidence},
 			maker{"rt-register", w(2, "registry", 3), (*TxGen).mkRegisterRuntime},
+		)
+	}
+	if h.Sc.KM != nil { // key manager support
+		g.makers = append(g.makers,
+			maker{"km-policy", w(1, "keymanager", 2), (*TxGen).mkKMUpdatePolicy},
+			maker{"km-secret", w(3, "keymanager", 2), (*TxGen).mkKMSecret},
+			maker{"km-churp", w(5, "keymanager", 2), (*TxGen).mkKMChurp},
 		)
 	}
 	return g
@@ -424,6 +433,10 @@ func (g *TxGen) renewNode(n *SimNode, extra int) *GenTx {
 	oldRts, newRts := n.Runtimes, n.Runtimes
 	if at := g.h.Sc.P.RT.SecondDeploymentAt; at != 0 && len(n.Runtimes) == 1 && n.Runtimes[0].Version == rtVersion1 && ep+2 >= at && g.rng.IntN(3) == 0 {
 		newRts = append(append([]*node.Runtime(nil), n.Runtimes...), &node.Runtime{ID: n.Runtimes[0].ID, Version: rtVersion2})
+	}
+	// key manager support: a key manager node registers with the init response for the current status.
+	if n.IsKeyManager() && g.h.Sc.KM != nil {
+		newRts = g.kmDriver().nodeRuntimes(n)
 	}
 	n.Runtimes = newRts
 	nd := NodeDescriptor(n, beacon.EpochTime(exp))
@@ -813,9 +826,13 @@ func (g *TxGen) Next(height int64) []*GenTx {
 		if gt.Signer != nil && gt.Tx != nil && (gt.Intent == "valid" || gt.Intent == "gas-too-low" || gt.Intent == "malformed-body" ||
 			gt.Intent == "wrong-tx-signer" || gt.Intent == "missing-signature" || gt.Intent == "extra-signature" ||
 			gt.Intent == "duplicate-subkey" || gt.Intent == "bad-expiration" || gt.Intent == "forbidden-update" || gt.Intent == "former-owner-update" ||
-			strings.HasPrefix(gt.Intent, "rt:") || strings.HasPrefix(gt.Intent, "post:")) && gt.Tx.Nonce == g.nonce(gt.Signer) { // runtime support: "rt:" intents fail after authentication
+			strings.HasPrefix(gt.Intent, "rt:") || strings.HasPrefix(gt.Intent, "km:") || strings.HasPrefix(gt.Intent, "post:")) && gt.Tx.Nonce == g.nonce(gt.Signer) { // runtime / key manager support: "rt:" and "km:" intents fail after authentication
 			g.bump(gt.Signer)
 		}
+	}
+
+	if g.h.Sc.KM != nil { // key manager support: the init responses of this block follow the committed status
+		g.kmDriver().begin(height)
 	}
 
 	// Maintenance: keep validator nodes registered (the documented election precondition).
@@ -834,6 +851,10 @@ func (g *TxGen) Next(height int64) []*GenTx {
 				}
 				// runtime support: some compute-only nodes are allowed to expire.
 				if n.IsCompute() && n.Roles&node.RoleValidator == 0 && (g.rng.IntN(10) == 0 || (g.h.Cfg.Profile == "runtime" && g.rng.IntN(4) == 0)) {
+					continue
+				}
+				// key manager support: now and then a key manager node is allowed to expire.
+				if n.IsKeyManager() && n.Roles&node.RoleValidator == 0 && g.rng.IntN(12) == 0 {
 					continue
 				}
 				add(g.renewNode(n, 0))
@@ -866,6 +887,13 @@ func (g *TxGen) Next(height int64) []*GenTx {
 	// runtime support: the commitments that drive the runtime's rounds.
 	if g.h.Sc.Runtime != nil {
 		for _, gt := range g.runtimeDriver().txs(height) {
+			add(gt)
+		}
+	}
+
+	// key manager support: re-registrations that follow the status, secrets, applications and confirmations.
+	if g.h.Sc.KM != nil {
+		for _, gt := range g.kmDriver().txs() {
 			add(gt)
 		}
 	}
